@@ -95,40 +95,47 @@ func ruleScannerState(c *Ctx) {
 				out[b.Index] = o
 			}
 		}
-		// publication point: store to Valid of a non-constant value
-		found := false
+		// publication point: the store of the non-constant Valid flag; every return that follows it
+		// (dominated by it) must find every exported field definitely assigned
+		var pub ssa.Instruction
 		for _, b := range fn.Blocks {
-			assigned := copyset(in[b.Index])
 			for _, ins := range b.Instrs {
-				f, val := fieldOf(ins)
-				if f != "" {
-					assigned[f] = true
-				}
-				if f == "Valid" {
-					if _, isConst := val.(*ssa.Const); isConst {
-						continue
-					}
-					found = true
-					n++
-					// fields stored later in the same block count too (published together)
-					for _, later := range b.Instrs {
-						if lf, _ := fieldOf(later); lf != "" {
-							assigned[lf] = true
-						}
-					}
-					var missing []string
-					for _, fld := range fields {
-						if !assigned[fld] {
-							missing = append(missing, fld)
-						}
-					}
-					sort.Strings(missing)
-					if len(missing) > 0 {
-						c.R.Bad("G2-scanner-state", key, p.InstrPos(ins), "when a row is published as valid, "+strings.Join(missing, ", ")+" is not assigned on every path: a reused scanner reports the previous row's value")
-					} else {
-						c.R.OK("G2-scanner-state", key, p.InstrPos(ins), "every exported field ("+strings.Join(fields, ", ")+") is assigned on all paths before the row is published")
+				if f, val := fieldOf(ins); f == "Valid" {
+					if _, isConst := val.(*ssa.Const); !isConst {
+						pub = ins
 					}
 				}
+			}
+		}
+		found := pub != nil
+		if found {
+			n++
+			bad := ""
+			nret := 0
+			for _, b := range fn.Blocks {
+				ret, ok := b.Instrs[len(b.Instrs)-1].(*ssa.Return)
+				if !ok || !(pub.Block().Dominates(b)) {
+					continue
+				}
+				nret++
+				assigned := copyset(out[b.Index])
+				var missing []string
+				for _, fld := range fields {
+					if !assigned[fld] {
+						missing = append(missing, fld)
+					}
+				}
+				sort.Strings(missing)
+				if len(missing) > 0 {
+					bad = fmt.Sprintf("on the return at %s, reached after the row is published as valid, %s is not assigned on every path: a reused scanner reports the previous row's value", p.InstrPos(ret), strings.Join(missing, ", "))
+				}
+			}
+			if bad != "" {
+				c.R.Bad("G2-scanner-state", key, p.InstrPos(pub), bad)
+			} else if nret == 0 {
+				c.R.Unknown("G2-scanner-state", key, p.InstrPos(pub), "no return follows the publication of Valid")
+			} else {
+				c.R.OK("G2-scanner-state", key, p.InstrPos(pub), "every exported field ("+strings.Join(fields, ", ")+") is assigned on all paths to the "+fmt.Sprint(nret)+" return(s) after the row is published")
 			}
 		}
 		if !found {
